@@ -235,6 +235,13 @@ fn run(case: &Case, rng: &mut Rng, out: &mut Out) {
                                 bytes.extend(enc.encode_simple(&m, 4));
                                 sent.push(m);
                             }
+                            if s > cap {
+                                // and one message that really needs the large size
+                                let l = s.min(16_777_215);
+                                let m = Msg { type_id: 9, msid: 1, ts: 99, data: (0..l).map(|x| (x >> 5) as u8 ^ x as u8).collect() };
+                                bytes.extend(enc.encode_simple(&m, 6));
+                                sent.push(m);
+                            }
                             let mut d = ChunkDeserializer::new();
                             d.set_max_chunk_size(*v as usize).map_err(|e| format!("{:?}", e))?;
                             let mut got = Vec::new();
